@@ -589,7 +589,7 @@ def install_sim_wrappers():
                                 "g": g, "id": em._emissions_id, "start": di(em._start_date), "rate": float(em._rate),
                                 "repairable": bool(em._repairable),
                                 "nrd": int(getattr(em, "_nrd", getattr(em, "_duration", 0))),
-                                "repair_delay": int(getattr(em, "_repair_delay", 0)),
+                                "repair_delay": _num(getattr(em, "_repair_delay", 0)),
                                 "repair_cost": rc if isinstance(rc, list) else _num(rc),
                                 "intermittent": hasattr(em, "_active_duration"),
                                 "adur": int(getattr(em, "_active_duration", 1)),
